@@ -273,6 +273,17 @@ def gen_case(rng, dev):
     if hist and rng.random() < 0.3:
         hist.append(dict(k='shb'))
     c['hist'] = hist
+    # a second run in the same monitor after the breakpoints changed (the answer must depend on the
+    # current breakpoint table only, not on what an earlier run saw)
+    hist2 = []
+    if added and cmd != 'step' and rng.random() < 0.7:
+        for _ in range(rng.choice([1, 1, 2])):
+            if rng.random() < 0.65:
+                hist2.append(dict(k='db', toks=[str(rng.randrange(added))]))
+            else:
+                a = rng.choice(istarts)
+                hist2.append(dict(k='ab', toks=[M.spell_num(rng, a)], addr=a))
+    c['hist2'] = hist2
     c['spell'] = M.spell_num(rng, S)
     return c
 
@@ -503,9 +514,69 @@ def run_case(c):
                           or subj != mem0)
         res['nactive'] = len(active)
         res['ndeleted'] = sum(1 for b in bps_now if b is None)
+        if c.get('hist2') and not res['finds']:
+            rerun(c, rm, orc, res, mem0, P, line)
         return res
     finally:
         rm.close()
+
+
+def rerun(c, rm, orc, res, mem0, P, line):
+    """Same program, same initial state, same monitor instance, after the breakpoint table changed."""
+    dev = c['dev']
+    subj = rm.subj
+    mpu = rm.mon._mpu
+    for h in c['hist2']:
+        out, body, l2, _ = rm.run(h)
+        res['info'].append((l2, out))
+        bad = orc.check(h, out)
+        if bad:
+            res['finds'].append(dict(key=dict(kind='bp-number', dev=dev), index=len(c['hist']), line=l2, text=bad))
+            return
+    active = set(orc.active.values())
+    subj[:] = mem0
+    mpu.a, mpu.x, mpu.y, mpu.sp, mpu.p = c['a'], c['x'], c['y'], c['sp'], c['p']
+    mpu.processorCycles = c['cycles']
+    mpu.excycles, mpu.addcycles = 0, 0
+    if hasattr(mpu, 'waiting'):
+        mpu.waiting = False
+    mpu.pc = c['pc0'] if c['cmd'] == 'goto' else c['S']
+    status, n, B, reason, ioflag = bare_run(c, mem0, active, P)
+    if status != 'ok':
+        return
+    old = signal.signal(signal.SIGALRM, _alarm)
+    signal.setitimer(signal.ITIMER_REAL, 20.0)
+    try:
+        body = rm.type(line)
+    finally:
+        signal.setitimer(signal.ITIMER_REAL, 0)
+        signal.signal(signal.SIGALRM, old)
+    res['info'].append((line, body[-60:]))
+    res['reruns'] = res.get('reruns', 0) + 1
+    idx = len(c['hist']) + 1 + len(c['hist2'])
+    key = dict(kind='rerun-state', dev=dev, cmd=c['cmd'])
+    if 'Timeout' in body and 'Traceback' in body:
+        res['finds'].append(dict(key=dict(kind='rerun-no-stop', dev=dev, cmd=c['cmd']), index=idx, line=line,
+                                 text='second run after %s: the bare device reaches the stop condition (%s) after %d '
+                                      'instruction(s) at $%x; the monitor was still running after 20 s'
+                                      % ([M.cmd_token(h) for h in c['hist2']], reason, n, B.pc)))
+        return
+    m = re.search(r'Breakpoint (\d+) reached\.\n\Z', body)
+    hit = int(m.group(1)) if m else None
+    got, want = regs_of(mpu), regs_of(B)
+    gs, ws = got.split()[:7], want.split()[:7]
+    exp_hit = None
+    if reason == 'breakpoint':
+        exp_hit = [k for k, a in orc.active.items() if a == B.pc][0]
+    if gs != ws or subj != B.memory._subject or hit != exp_hit:
+        names = ['a', 'x', 'y', 'sp', 'p', 'pc', 'cycles']
+        d = ', '.join('%s %s != %s' % (nm, g, w) for nm, g, w in zip(names, gs, ws) if g != w)
+        res['finds'].append(dict(key=key, index=idx, line=line,
+                                 text='second `%s` in the same monitor after %s (active breakpoints now %s): the monitor '
+                                      'differs from the bare device stepped %d time(s) (stop: %s at $%x): %s; printed '
+                                      'breakpoint %s, expected %s' % (
+                                          line, [M.cmd_token(h) for h in c['hist2']], sorted(active), n, reason, B.pc,
+                                          d or 'registers equal', hit, exp_hit)))
 
 
 def evaluate(cases):
